@@ -120,17 +120,24 @@ def wellformed_varbind_shapes(tree):
     return True
 
 
-def loop_predicted(datagrams):
+def loop_predicted(datagrams, forced=()):
     """for each datagram: does the Lean x690 mirror predict a never-ending decode loop — in the
-    message itself or in the USM security-parameter block nested in its third field?"""
+    message itself or in the USM security-parameter block nested in its third field?  Datagrams in
+    `forced` went through `Sequence.decode(data)` (the trap callback), which reads the first TLV as
+    a sequence whatever its tag: for those the mirror of that call is consulted as well."""
     from harness.common import run_driver
 
     datagrams = list(dict.fromkeys(datagrams))
     first = run_driver([{"op": "ber.tree", "data": dg.hex(), "fuel": len(dg) + 16, "depth": 12} for dg in datagrams])
     out, nested = {}, []
+    fl = [dg for dg in datagrams if dg in set(forced)]
+    forced_pred = {}
+    if fl:
+        for dg, a in zip(fl, run_driver([{"op": "ber.tree", "data": dg.hex(), "fuel": len(dg) + 16, "depth": 12, "forced": True} for dg in fl])):
+            forced_pred[dg] = a.get("ok") == ["error", "outOfFuel"]
     for dg, a in zip(datagrams, first):
         t = a.get("ok")
-        out[dg] = t == ["error", "outOfFuel"]
+        out[dg] = t == ["error", "outOfFuel"] or forced_pred.get(dg, False)
         if isinstance(t, list) and t[:1] == ["seq"] and len(t[2]) >= 3 and t[2][2][0] == "str" and t[2][2][2]:
             nested.append((dg, t[2][2][2]))
     if nested:
